@@ -16,7 +16,7 @@ CLAIMS = {
             "in replayed and step-driven runs workers are executed in-process in the order the driver chooses; engine exclusivity is that of the instances handed out by the main process",
             "DESIGN.md 5/C03"),
     "C04": ("model_checking",
-            "Infretis.tla with exact rational fractional weights model-checked for the accounting identity and write-once rows; every Complete event of replayed behaviours and recorded runs is checked by TLC for unit credit per idle column, zero on busy rows/columns, support, rows and restart-file contents.",
+            "Infretis.tla with exact rational fractional weights model-checked for the accounting identity and write-once rows; every Complete event of replayed behaviours, recorded step-driven runs and recorded histories of the unmodified scheduler with a real process pool and the real TurtleMD engine (8 ensembles, wire-fencing weights, several workers, SIGKILL and continuation) is checked by TLC for unit credit per idle column, zero on busy rows/columns, support, rows and restart-file contents.",
             "floats cross the boundary as micro-units and, per step, as exact numerators over perm(W_idle)",
             "DESIGN.md 5/C04"),
     "C05": ("model_checking",
